@@ -1,7 +1,7 @@
 (* Proofs/StoreProofs.v -- invariants of the content-addressed store (C07)
    for every operation history and every crash point. *)
 From Coq Require Import List Arith ZArith Bool Lia.
-From DV Require Import Model.Catalogue Model.Store.
+From DV Require Import Model.Catalogue Model.Store Proofs.CatalogueProofs.
 Import ListNotations.
 
 (* ---- catalogue operations never touch the prime table -------------------- *)
@@ -295,3 +295,273 @@ Proof.
 Qed.
 
 End WithDigest.
+
+(* ===== catalogue invariant over histories (C08, C06) ========================== *)
+
+Definition plain_id (id : ident) : Prop :=
+  plain (d_task id) /\ plain (d_alg id) /\ plain (d_sv id) /\ plain (d_vn id).
+
+Definition plain_op (o : op) : Prop :=
+  match o with
+  | OAdd tn => plain tn
+  | OReg id => plain_id id
+  | OUpd _ tn id _ _ => plain tn /\ plain_id id
+  | OLoad _ tn id => plain tn /\ plain_id id
+  | ORemove _ _ _ alg sv vn => plain alg /\ plain sv /\ plain vn
+  | _ => True
+  end.
+
+(* key resolves to the identity (every name, every version) *)
+Definition resolves (c : cat) (key : pkey) (tn : name) (id : ident) : Prop :=
+  let '(_, t, k, a, s, v) := key in
+  nth_error (ix c Ttarget) t = Some tn /\
+  nth_error (ix c Ttask) k = Some (d_task id) /\
+  nth_error (ix c Talg) a = Some (construct (d_alg id) (Some k) (Some (d_aver id))) /\
+  nth_error (ix c Tstate) s = Some (construct (d_sv id) (Some a) (Some (d_sver id))) /\
+  nth_error (ix c Tvalue) v = Some (construct (d_vn id) (Some s) (Some (d_vver id))).
+
+Lemma SP_resolves_ext : forall c c' key tn id,
+  ext c c' -> resolves c key tn id -> resolves c' key tn id.
+Proof.
+  intros c c' [[[[[r t] k] a] s] v] tn id H (H1 & H2 & H3 & H4 & H5).
+  repeat split; eapply CP_ext_nth; eauto.
+Qed.
+
+Lemma SP_resolves_chained : forall c key tn id, resolves c key tn id -> chained c key.
+Proof.
+  intros c [[[[[r t] k] a] s] v] tn id (H1 & H2 & H3 & H4 & H5). repeat split.
+  - apply nth_error_Some. congruence.
+  - apply nth_error_Some. congruence.
+  - eauto.
+  - eauto.
+  - eauto.
+Qed.
+
+Lemma SP_resolves_names : forall c key tn id, resolves c key tn id ->
+  has_names c key tn (d_task id) (d_alg id) (d_sv id) (d_vn id).
+Proof.
+  intros c [[[[[r t] k] a] s] v] tn id (H1 & H2 & H3 & H4 & H5). repeat split; eauto.
+Qed.
+
+(* distinct identities never share a key; one identity has one key *)
+Lemma SP_resolves_inj : forall c key key' tn tn' id id',
+  resolves c key tn id -> resolves c key' tn' id' -> pk_tail key = pk_tail key' ->
+  tn = tn' /\ id = id'.
+Proof.
+  intros c [[[[[r t] k] a] s] v] [[[[[r' t'] k'] a'] s'] v'] tn tn' id id'
+         (H1 & H2 & H3 & H4 & H5) (G1 & G2 & G3 & G4 & G5) E.
+  cbn in E. injection E as -> -> -> -> ->.
+  rewrite H1 in G1. rewrite H2 in G2. rewrite H3 in G3. rewrite H4 in G4. rewrite H5 in G5.
+  injection G1 as ->. injection G2 as E2. injection G3 as E3. injection G4 as E4.
+  injection G5 as E5.
+  apply CP_construct_inj in E3, E4, E5.
+  destruct E3 as (E3 & _ & E3'), E4 as (E4 & _ & E4'), E5 as (E5 & _ & E5').
+  split; [reflexivity|]. destruct id, id'. cbn in *. congruence.
+Qed.
+
+Lemma SP_resolves_fun : forall c key key' tn id, Iwf c ->
+  resolves c key tn id -> resolves c key' tn id -> pk_tail key = pk_tail key'.
+Proof.
+  intros c [[[[[r t] k] a] s] v] [[[[[r' t'] k'] a'] s'] v'] tn id Hw
+         (H1 & H2 & H3 & H4 & H5) (G1 & G2 & G3 & G4 & G5).
+  assert (forall x, NoDup (ix c x)) as Hnd by (intros x; apply (Hw x)).
+  assert (t = t') as <- by (eapply CP_nth_inj; eauto).
+  assert (k = k') as <- by (eapply CP_nth_inj; eauto).
+  assert (a = a') as <- by (eapply CP_nth_inj; eauto).
+  assert (s = s') as <- by (eapply CP_nth_inj; eauto).
+  assert (v = v') as <- by (eapply CP_nth_inj; eauto).
+  reflexivity.
+Qed.
+
+Lemma SP_to_key : forall c r tn id c' key,
+  Iwf c -> plain tn -> plain_id id -> to_key c r tn id = (c', key) ->
+  Iwf c' /\ prime c' = prime c /\ ext c c' /\ pk_run key = r /\ resolves c' key tn id.
+Proof.
+  intros c r tn id c' key Hw Htn (Hp1 & Hp2 & Hp3 & Hp4) H. unfold to_key in H.
+  destruct (cat_append c Ttarget tn None None) as [c1 trg] eqn:E1.
+  destruct (cat_append c1 Ttask (d_task id) None None) as [c2 tid] eqn:E2.
+  destruct (cat_append c2 Talg (d_alg id) (Some tid) (Some (d_aver id))) as [c3 aid] eqn:E3.
+  destruct (cat_append c3 Tstate (d_sv id) (Some aid) (Some (d_sver id))) as [c4 sid] eqn:E4.
+  destruct (cat_append c4 Tvalue (d_vn id) (Some sid) (Some (d_vver id))) as [c5 vid] eqn:E5.
+  injection H as <- <-.
+  apply CP_cat_append in E1; [|exact Hw|split; [exact Htn|auto]].
+  destruct E1 as (W1 & P1 & X1 & N1 & _ & _).
+  apply CP_cat_append in E2; [|exact W1|split; [exact Hp1|auto]].
+  destruct E2 as (W2 & P2 & X2 & N2 & _ & _).
+  apply CP_cat_append in E3; [|exact W2|split; [exact Hp2|eauto]].
+  destruct E3 as (W3 & P3 & X3 & N3 & _ & _).
+  apply CP_cat_append in E4; [|exact W3|split; [exact Hp3|eauto]].
+  destruct E4 as (W4 & P4 & X4 & N4 & _ & _).
+  apply CP_cat_append in E5; [|exact W4|split; [exact Hp4|eauto]].
+  destruct E5 as (W5 & P5 & X5 & N5 & _ & _).
+  split; [exact W5|]. split; [congruence|].
+  assert (X25 : ext c2 c5) by (eapply CP_ext_trans; [exact X3|]; eapply CP_ext_trans; eauto).
+  assert (X15 : ext c1 c5) by (eapply CP_ext_trans; eauto).
+  split; [eapply CP_ext_trans; eauto|]. split; [reflexivity|].
+  cbn [resolves]. repeat split.
+  - eapply CP_ext_nth; [exact X15|exact N1].
+  - eapply CP_ext_nth; [exact X25|exact N2].
+  - eapply CP_ext_nth; [|exact N3]. eapply CP_ext_trans; eauto.
+  - eapply CP_ext_nth; [exact X5|exact N4].
+  - exact N5.
+Qed.
+
+Lemma SP_register : forall c id, Iwf c -> plain_id id ->
+  Iwf (register c id) /\ prime (register c id) = prime c /\ ext c (register c id).
+Proof.
+  intros c id Hw (Hp1 & Hp2 & Hp3 & Hp4). unfold register.
+  destruct (cat_append c Ttask (d_task id) None None) as [c2 tid] eqn:E2.
+  destruct (cat_append c2 Talg (d_alg id) (Some tid) (Some (d_aver id))) as [c3 aid] eqn:E3.
+  destruct (cat_append c3 Tstate (d_sv id) (Some aid) (Some (d_sver id))) as [c4 sid] eqn:E4.
+  destruct (cat_append c4 Tvalue (d_vn id) (Some sid) (Some (d_vver id))) as [c5 vid] eqn:E5.
+  apply CP_cat_append in E2; [|exact Hw|split; [exact Hp1|auto]].
+  destruct E2 as (W2 & P2 & X2 & _).
+  apply CP_cat_append in E3; [|exact W2|split; [exact Hp2|eauto]].
+  destruct E3 as (W3 & P3 & X3 & _).
+  apply CP_cat_append in E4; [|exact W3|split; [exact Hp3|eauto]].
+  destruct E4 as (W4 & P4 & X4 & _).
+  apply CP_cat_append in E5; [|exact W4|split; [exact Hp4|eauto]].
+  destruct E5 as (W5 & P5 & X5 & _).
+  split; [exact W5|]. split; [congruence|].
+  eapply CP_ext_trans; [exact X2|]. eapply CP_ext_trans; [exact X3|].
+  eapply CP_ext_trans; eauto.
+Qed.
+
+Lemma SP_pset_spec : forall k b p, NoDup (map fst p) ->
+  NoDup (map fst (pset k b p)) /\
+  forall e, In e (pset k b p) <-> e = (k, b) \/ (In e p /\ fst e <> k).
+Proof.
+  intros k b p. induction p as [|[k' b'] p IH]; cbn; intros Hnd.
+  - split; [constructor; [tauto|constructor]|]. intros e. intuition.
+  - inversion Hnd as [|? ? Hk Hnd']; subst. destruct (IH Hnd') as [IH1 IH2].
+    destruct (pkey_eqb k k') eqn:E.
+    + apply CP_pkey_eqb_eq in E. subst k'. split; [cbn; constructor; assumption|].
+      intros [k0 b0]. cbn. split.
+      * intros [[= <- <-]|Hin]; [now left|]. right. split; [now right|].
+        intros ->. apply Hk. apply in_map_iff. exists (k, b0). auto.
+      * intros [[= -> ->]|[[[= <- <-]|Hin] Hne]]; [now left|congruence|now right].
+    + assert (k <> k') as Hne
+        by (intros ->; rewrite (proj2 (CP_pkey_eqb_eq k' k') eq_refl) in E; discriminate).
+      split.
+      * cbn. constructor; [|exact IH1]. intros Hin. apply in_map_iff in Hin.
+        destruct Hin as [[k0 b0] [Hk0 Hin]]. cbn in Hk0. subst k0.
+        apply IH2 in Hin. destruct Hin as [[= -> ->]|[Hin _]]; [congruence|].
+        apply Hk. apply in_map_iff. exists (k', b0). auto.
+      * intros e. cbn. rewrite IH2. split.
+        -- intros [<-|[H|[H1 H2]]]; [right; split; [now left|cbn; congruence]|now left|].
+           right. split; [now right|exact H2].
+        -- intros [->|[[<-|H1] H2]]; [right; now left|now left|right; right; auto].
+Qed.
+
+Definition Idb (d : db) : Prop := Icat (dcat d).
+
+Lemma SP_Icat_ext : forall c c', Icat c -> Iwf c' -> ext c c' -> prime c' = prime c -> Icat c'.
+Proof.
+  intros c c' (Hw & Hnd & Hch) Hw' Hx Hp. split; [exact Hw'|]. rewrite Hp. split; [exact Hnd|].
+  intros k b Hin. eapply CP_chained_ext; eauto.
+Qed.
+
+Lemma SP_reopen_same : forall c, Iwf c -> reopen c = c.
+Proof.
+  intros c Hw. unfold reopen.
+  pose proof (CP_indexed _ _ (proj1 (Hw Ttarget))) as H1.
+  pose proof (CP_indexed _ _ (proj1 (Hw Ttask))) as H2.
+  pose proof (CP_indexed _ _ (proj1 (Hw Talg))) as H3.
+  pose proof (CP_indexed _ _ (proj1 (Hw Tstate))) as H4.
+  pose proof (CP_indexed _ _ (proj1 (Hw Tvalue))) as H5.
+  cbn [ix tb] in *. rewrite H1, H2, H3, H4, H5. destruct c; reflexivity.
+Qed.
+
+Section History.
+Variable digest : Z -> Z.
+
+Lemma SP_steps_cat : forall n k c d,
+  let d' := run_steps n (upd_steps digest k c) d in
+  (forall x, tb (dcat d') x = tb (dcat d) x /\ ix (dcat d') x = ix (dcat d) x) /\
+  (prime (dcat d') = prime (dcat d) \/ prime (dcat d') = pset k (digest c) (prime (dcat d))).
+Proof.
+  intros n k c d. unfold run_steps, upd_steps.
+  assert (F : forall x, tb (dcat (st_record digest k c (st_move digest c (st_dump c (st_mkstemp d))))) x
+                        = tb (dcat d) x /\
+                        ix (dcat (st_record digest k c (st_move digest c (st_dump c (st_mkstemp d))))) x
+                        = ix (dcat d) x).
+  { intros x. unfold st_record, st_move. cbn.
+    destruct (smem (digest c) (store d)); cbn; destruct x; auto. }
+  assert (M : dcat (st_move digest c (st_dump c (st_mkstemp d))) = dcat d).
+  { unfold st_move. cbn. destruct (smem (digest c) (store d)); reflexivity. }
+  assert (R : prime (dcat (st_record digest k c (st_move digest c (st_dump c (st_mkstemp d)))))
+              = pset k (digest c) (prime (dcat d))).
+  { unfold st_record. cbn [dcat prime set_prime]. now rewrite M. }
+  destruct n as [n|]; [|cbn; split; [exact F|right; exact R]].
+  destruct n as [|[|[|[|[|[|n]]]]]]; cbn; unfold st_sum;
+    try (split; [intros x; auto|left; reflexivity]);
+    try (rewrite M; split; [intros x; auto|left; reflexivity]).
+  destruct n; cbn; (split; [exact F|right; exact R]).
+Qed.
+
+Lemma SP_exec_Idb : forall d o, Idb d -> plain_op o ->
+  Idb (fst (exec digest d o)) /\ ext (dcat d) (dcat (fst (exec digest d o))).
+Proof.
+  intros d o HI Hp. pose proof HI as (Hw & Hnd & Hch). destruct o; cbn [exec plain_op] in *.
+  - destruct (cat_append (dcat d) Ttarget tn None None) as [c1 trg] eqn:E. cbn [fst].
+    apply CP_cat_append in E; [|exact Hw|split; auto]. destruct E as (W & P & X & _).
+    split; [|exact X]. unfold Idb. cbn. eapply SP_Icat_ext; eauto.
+  - destruct (SP_register (dcat d) id Hw Hp) as (W & P & X). cbn [fst].
+    split; [|exact X]. unfold Idb. cbn. eapply SP_Icat_ext; eauto.
+  - destruct Hp as [Htn Hid]. unfold update1.
+    destruct (to_key (dcat d) r tn id) as [c1 k] eqn:E. cbn [fst].
+    destruct (SP_to_key _ _ _ _ _ _ Hw Htn Hid E) as (W & P & X & Hr & Hres).
+    set (d1 := mkdb c1 (store d) (stage d)).
+    destruct (SP_steps_cat steps k c d1) as [HT HP].
+    set (d2 := run_steps steps (upd_steps digest k c) d1) in *.
+    assert (X2 : ext (dcat d) (dcat d2)).
+    { intros y. destruct (HT y) as [_ ->]. cbn. apply X. }
+    split; [|exact X2].
+    assert (W2 : Iwf (dcat d2)).
+    { intros y. destruct (HT y) as [-> ->]. cbn. apply W. }
+    assert (X12 : ext c1 (dcat d2)).
+    { intros y. destruct (HT y) as [_ ->]. cbn. exists []. now rewrite app_nil_r. }
+    destruct HP as [HP|HP].
+    + unfold Idb. eapply SP_Icat_ext; eauto. rewrite HP. cbn. exact P.
+    + split; [exact W2|]. rewrite HP. cbn [d1 dcat]. rewrite P.
+      destruct (SP_pset_spec k (digest c) (prime (dcat d)) Hnd) as [N1 N2].
+      split; [exact N1|]. intros k0 b0 Hin. apply N2 in Hin.
+      destruct Hin as [[= -> ->]|[Hin _]].
+      * eapply CP_chained_ext; [exact X12|]. eapply SP_resolves_chained; eauto.
+      * eapply CP_chained_ext; [exact X2|]. eauto.
+  - destruct Hp as [Htn Hid]. unfold load1.
+    destruct (to_key (dcat d) r tn id) as [c1 k] eqn:E. cbn [fst].
+    destruct (SP_to_key _ _ _ _ _ _ Hw Htn Hid E) as (W & P & X & Hr & Hres).
+    split; [|exact X]. unfold Idb. cbn. eapply SP_Icat_ext; eauto.
+  - destruct Hp as (Ha & Hs & Hv).
+    destruct (remove (dcat d) r tn task alg sv vn) as [c'|] eqn:E; cbn [fst];
+      [|split; [exact HI|apply CP_ext_refl]].
+    destruct (CP_remove_exact _ _ _ _ _ _ _ _ HI Ha Hs Hv E) as (HT & N & Hin).
+    assert (X : ext (dcat d) c').
+    { intros y. destruct (HT y) as [_ ->]. exists []. now rewrite app_nil_r. }
+    split; [|exact X]. unfold Idb. cbn. split; [|split; [exact N|]].
+    + intros y. destruct (HT y) as [-> ->]. apply Hw.
+    + intros k b Hk. apply Hin in Hk. destruct Hk as [Hk _].
+      eapply CP_chained_ext; [exact X|]. eauto.
+  - cbn [fst]. unfold Idb. cbn. rewrite SP_reopen_same by exact Hw.
+    split; [exact HI|apply CP_ext_refl].
+  - split; [exact HI|apply CP_ext_refl].
+  - split; [exact HI|apply CP_ext_refl].
+  - split; [exact HI|apply CP_ext_refl].
+  - split; [exact HI|apply CP_ext_refl].
+Qed.
+
+Theorem SP_run_Idb : forall ops d, Idb d -> Forall plain_op ops ->
+  Idb (run digest d ops) /\ ext (dcat d) (dcat (run digest d ops)).
+Proof.
+  induction ops as [|o ops IH]; intros d HI Hp; cbn.
+  - split; [exact HI|apply CP_ext_refl].
+  - inversion Hp as [|? ? Ho Hops]; subst.
+    destruct (SP_exec_Idb d o HI Ho) as [H1 X1].
+    destruct (IH _ H1 Hops) as [H2 X2]. split; [exact H2|]. eapply CP_ext_trans; eauto.
+Qed.
+
+Lemma SP_Idb0 : Idb db0.
+Proof. exact CP_Icat0. Qed.
+
+End History.
